@@ -15,6 +15,7 @@
 //   version                        GetVersionString / IPhreeqc::GetVersionString / GetVersionStringF
 //   loaddb <via> <id> | loadbad <via> <id> | defsel <via> <id> <n> <hex|->      (PH_DB = database path)
 //   runsel <via> <id> <hex> <n>...  RunString of a real input that defines SELECTED_OUTPUT n... (no -file option)
+//   loadstr <via> <id> | loadstrbad <via> <id>   LoadDatabaseString with the database text / with text that fails
 //   pad <hex> <len>                padfstring(dest[len], src, &len)    -> "P buf:len"
 #include "friend.hpp"
 #include "hx.hpp"
@@ -22,6 +23,7 @@
 #include "IPhreeqc_interface_F.h"
 #include <map>
 #include <functional>
+#include <fstream>
 void padfstring(char *dest, const char *src, int* len);
 static std::string fstr(const char* buf, int cap, int len){ // Fortran buffer: cap characters, reported length len
   std::string s(buf, cap); return hx::hex(s)+":"+std::to_string(len); }
@@ -116,6 +118,11 @@ int main(){
     else if(op=="loaddb"||op=="loadbad"){ int id=arg(2); std::string f = op=="loaddb" ? db : std::string("/nonexistent/none.dat"); IPhreeqc* q=TestIPhreeqc::instance(id); int r;
       if(w[1]=="c") r=LoadDatabase(id,f.c_str()); else if(w[1]=="f") r=LoadDatabaseF(&id,(char*)f.c_str()); else r = q ? q->LoadDatabase(f.c_str()) : -6;
       out<<"I "<<r<<"\n"; }
+    else if(op=="loadstr"||op=="loadstrbad"){ // LoadDatabaseString with the text of PH_DB (succeeds) / with text that defines nothing (fails)
+      int id=arg(2); static std::string dbtext; if(dbtext.empty()){ std::ifstream f(db.c_str()); std::ostringstream o; o<<f.rdbuf(); dbtext=o.str(); }
+      std::string t = op=="loadstr" ? dbtext : std::string("XYZ\n"); IPhreeqc* q=TestIPhreeqc::instance(id); int r;
+      if(w[1]=="c") r=LoadDatabaseString(id,t.c_str()); else if(w[1]=="f") r=LoadDatabaseStringF(&id,(char*)t.c_str()); else r = q ? q->LoadDatabaseString(t.c_str()) : -6;
+      out<<"I "<<(op=="loadstrbad" && r>0 ? 1 : r)<<"\n"; }
     else if(op=="defsel"){ int id=arg(2), n=arg(3); std::string in="SELECTED_OUTPUT "+std::to_string(n)+"\n -reset false\n";
       if(w[4]!="-") in += " -file "+hx::unhex(w[4])+"\n"; IPhreeqc* q=TestIPhreeqc::instance(id); int r;
       if(w[1]=="c") r=RunString(id,in.c_str()); else if(w[1]=="f") r=RunStringF(&id,(char*)in.c_str()); else r = q ? q->RunString(in.c_str()) : -6;
